@@ -8,6 +8,7 @@ import Cerberus.Model.Tree
 import Cerberus.Model.Render
 import Cerberus.Model.Setters
 import Cerberus.Model.Validate
+import Cerberus.Model.Normalize
 import Cerberus.Extracted
 open Lean Cerberus Cerberus.Codec
 
@@ -206,6 +207,30 @@ def portValidate0 (j : Json) : Except String Json := do
   let ctx : Ctx := { cfg := cfg }
   pure (outcomeToJson (validate0 env Extracted.tables fuel ctx schema doc upd))
 
+def docOutcomeToJson (r : M (List (Key × Val) × List Err)) : Json :=
+  match r with
+  | .ok (m, es) => Json.mkObj [("ok", errsToJson es), ("doc", valToJson (.dict m))]
+  | .error (.py t s) => Json.mkObj [("raised", Json.arr #[Json.str t, Json.str s])]
+  | .error .schemaRuleType => Json.mkObj [("raised", Json.arr #[Json.str "_SchemaRuleTypeError", Json.str ""])]
+  | .error .fuel => Json.str "fuel"
+  | .error (.oracle w) => Json.mkObj [("need", Json.str w)]
+
+/-- ports `normalize` (normalized(doc, always_return_document=True)) and
+    `validate` (validate(doc, update, normalize=True)) -/
+def portNormalize (full : Bool) (j : Json) : Except String Json := do
+  let env ← envOfJson j
+  let cfg ← cfgOfJson j
+  let schema ← valOfJson (← j.getObjVal? "schema")
+  let doc ← valOfJson (← j.getObjVal? "doc")
+  let upd := (j.getObjVal? "update").toOption.bind (·.getBool?.toOption) |>.getD false
+  let fuel := (j.getObjVal? "fuel").toOption.bind (·.getNat?.toOption) |>.getD 40
+  let ctx : Ctx := { cfg := cfg }
+  match doc with
+  | .dict kvs =>
+    if full then pure (docOutcomeToJson (validateN env Extracted.tables fuel ctx schema kvs upd))
+    else pure (docOutcomeToJson (normalize env fuel ctx schema kvs))
+  | _ => throw "doc must be a dict"
+
 def handle (line : String) : Json :=
   match Json.parse line with
   | .error e => Json.mkObj [("error", Json.str s!"parse: {e}")]
@@ -218,6 +243,8 @@ def handle (line : String) : Json :=
       | "render" => portRender j
       | "setters" => portSetters j
       | "validate0" => portValidate0 j
+      | "normalize" => portNormalize false j
+      | "validate" => portNormalize true j
       | "ping" => pure (Json.str "pong")
       | _ => throw s!"bad-op {port}"
     match r with
